@@ -967,7 +967,12 @@ class SComplex:
 
 def turns_mod1_eq(t1, t2):
     """exp(2 pi i t1) == exp(2 pi i t2)"""
-    return z3.IsInt(_real(_z(t1)) - _real(_z(t2)))
+    d = z3.simplify(_real(_z(t1)) - _real(_z(t2)), som=True)
+    if z3.is_rational_value(d):
+        return z3.BoolVal(d.as_fraction().denominator == 1)
+    # the polynomial normal form did not cancel: keep both routes (identically zero is the common case and
+    # is much cheaper for the solver than integrality)
+    return z3.Or(d == 0, z3.IsInt(d))
 
 
 class Polar:
